@@ -36,7 +36,7 @@ def run_one(m):
         env["GREX_REPO"] = copy
         env["GREX_EVIDENCE_DIR"] = os.path.join(tmp, "evidence")
         res = {}
-        props = sorted({x["prop"] for x in m.get("expect", [])} | set(m.get("silent", [])))
+        props = sorted({x["prop"] for x in m.get("expect", [])} | set(m.get("silent", [])) | set(m.get("no_violation", [])) | {x["prop"] for x in m.get("absent", [])})
         for prop in props:
             r = subprocess.run([os.path.join(VERIF, "bin", "check"), prop], env=env, capture_output=True, text=True)
             keys = re.findall(r"^FINDING (\S+)", r.stdout, re.M)
@@ -59,6 +59,17 @@ def run_one(m):
             if rr["rc"] != 0:
                 ok = False
                 why.append("%s: expected silence, got rc=%d rules=%s %s" % (prop, rr["rc"], rr["rules"], rr["out"][-200:].replace("\n", " ")))
+        for prop in m.get("no_violation", []):
+            # the property holds on this variant: no alarm (an honest NO-VERDICT is accepted)
+            rr = res[prop]
+            if rr["rc"] == 1:
+                ok = False
+                why.append("%s: expected no violation, got rules=%s" % (prop, rr["rules"]))
+        for x in m.get("absent", []):
+            rr = res[x["prop"]]
+            if x["rule"] in rr["rules"]:
+                ok = False
+                why.append("%s: rule %s fired although this variant does not break it" % (x["prop"], x["rule"]))
         return m["id"], "ok" if ok else "FAILED", "; ".join(why), res
     finally:
         shutil.rmtree(tmp, ignore_errors=True)
@@ -69,10 +80,13 @@ def for_property(prop, jobs=6):
     ms = json.load(open(os.path.join(VERIF, "selftest", "mutants.json")))
     sel = []
     for m in ms:
-        if any(x["prop"] == prop for x in m.get("expect", [])) or prop in m.get("silent", []):
+        if any(x["prop"] == prop for x in m.get("expect", [])) or prop in m.get("silent", []) or prop in m.get("no_violation", []) \
+                or any(x["prop"] == prop for x in m.get("absent", [])):
             m2 = dict(m)
             m2["expect"] = [x for x in m.get("expect", []) if x["prop"] == prop]
             m2["silent"] = [x for x in m.get("silent", []) if x == prop]
+            m2["no_violation"] = [x for x in m.get("no_violation", []) if x == prop]
+            m2["absent"] = [x for x in m.get("absent", []) if x["prop"] == prop]
             sel.append(m2)
     out = []
     with concurrent.futures.ThreadPoolExecutor(max_workers=jobs) as ex:
